@@ -44,6 +44,7 @@ type Options struct {
 	Verbose     bool
 	C06         bool
 	Fixed       map[string]int
+	FrontierMult int
 }
 
 // Result of exploring one harness.
@@ -186,6 +187,9 @@ func (p *Program) Explore(pkg *ssa.Package, opt Options) *Result {
 	if opt.Limits.MaxConcVals == 0 {
 		opt.Limits.MaxConcVals = 600
 	}
+	if opt.FrontierMult == 0 {
+		opt.FrontierMult = 8
+	}
 	if opt.MaxFindings == 0 {
 		opt.MaxFindings = 6
 	}
@@ -306,7 +310,7 @@ func (p *Program) Explore(pkg *ssa.Package, opt Options) *Result {
 	}
 	if sharded {
 		frontier := [][]int64{nil}
-		for len(frontier) > 0 && len(frontier) < 8*opt.Of {
+		for len(frontier) > 0 && len(frontier) < opt.FrontierMult*opt.Of {
 			// expand the shallowest prefix
 			sort.SliceStable(frontier, func(i, j int) bool { return len(frontier[i]) < len(frontier[j]) })
 			pfx := frontier[0]
